@@ -328,7 +328,7 @@ fn generic<T: Tier, M: MatN<T, N>, const N: usize>(rep: &mut Report) {
 /// diagonal / the identity" shows at one end of the ladder; entries with denominators 3, 7, 9, 11, 13 make every
 /// float operation round, so a detour through another number type shows
 fn magnitudes<T: Tier, M: MatN<T, N>, const N: usize>(rep: &mut Report) {
-    let ks: Vec<i64> = if T::EXACT { vec![0, 6] } else if T::NAME == "F" { vec![0, 12, 24] } else { vec![0, 24, 40, 60] };
+    let ks: Vec<i64> = if T::EXACT { vec![0, 6] } else if T::NAME == "F" { (0..=24).step_by(3).collect() } else { (0..=60).step_by(4).collect() };
     let nb = 3;
     rep.cases(
         &format!("magnitudes/{}", M::NAME),
